@@ -1,6 +1,7 @@
 import Driver.ValidLib
 import Driver.C05Nest
 import Driver.C05Pair
+import Driver.C05Self
 /-! Driver executable for C05 (`drv_c05`): stream `valid-grid` compares GEOS observations with the reference rules;
 stream `ref` prints the reference verdicts of a bare geometry line. -/
 
@@ -10,6 +11,8 @@ def main (args : List String) : IO UInt32 := do
   | ["node-topo"] => Driver.loop (← IO.getStdin) (← IO.getStdout) Driver.C05.nodeTopo; return 0
   | ["ring-nested"] => Driver.loop (← IO.getStdin) (← IO.getStdout) Driver.C05.ringNested; return 0
   | ["pair-rule"] => Driver.loop (← IO.getStdin) (← IO.getStdout) Driver.C05.pairRuleLine; return 0
+  | ["self-node"] => Driver.loop (← IO.getStdin) (← IO.getStdout) Driver.C05.selfNodeLine; return 0
+  | ["nested-tester"] => Driver.loop (← IO.getStdin) (← IO.getStdout) Driver.C05.nestedTesterLine; return 0
   | ["ring-nested-dbg"] => Driver.loop (← IO.getStdin) (← IO.getStdout) Driver.C05.ringNestedDbg; return 0
   | ["ref"] => Driver.loop (← IO.getStdin) (← IO.getStdout) Driver.C05.refOnly; return 0
-  | _ => IO.eprintln "usage: drv_c05 valid-grid|node-topo|ring-nested|pair-rule|ref"; return 2
+  | _ => IO.eprintln "usage: drv_c05 valid-grid|node-topo|ring-nested|pair-rule|self-node|nested-tester|ref"; return 2
